@@ -63,6 +63,10 @@ class ParserTable:
     module: object = None
     # prefix tag -> tags of literal tokens read by parse_terminal directly
     prefix_terminal_if: dict = field(default_factory=dict)
+    # does "( ... )" hand back a *closed* tuple (one a following comma must
+    # wrap, not extend)?  read per form from the paths of the branch
+    paren_final: dict = field(default_factory=lambda: {"empty": True,
+                                                       "parsed": True})
 
     def prec(self, name):
         if isinstance(name, int):
@@ -766,6 +770,8 @@ def _extract_prefix(model, P, table):
             if precs != {0}:
                 raise AnalysisError(f"prefix {tag}: inner precedence {precs}")
             table.prefix[tag] = ("paren" if tag == "openpar" else "bracket", 0)
+            if tag == "openpar":
+                table.paren_final = _paren_finalization(pss)
             continue
         vals = {ps.retval for ps in pss}
         if len(vals) != 1:
@@ -786,6 +792,46 @@ def _extract_prefix(model, P, table):
             table.prefix[tag] = (_clsname(v[1]), _parse_prec(v[2][0]))
         else:
             raise AnalysisError(f"prefix {tag}: result {v} not recognised")
+
+
+def _paren_finalization(pss):
+    """Which of the two forms of a parenthesised group -- "()" and "(<parsed>)"
+    -- come back wrapped in the closed-tuple class whenever they are tuples.
+    A path that returns the bare value although nothing on it says the value is
+    not a tuple hands an *open* tuple to the comma handler."""
+    out = {"empty": True, "parsed": True}
+    seen = set()
+
+    def is_empty_lit(v):
+        return v == ("lit", "tuple", ())
+
+    for ps in pss:
+        rv = ps.retval
+        inner = rv
+        wrapped = False
+        if isinstance(rv, tuple) and rv and rv[0] == "call" and \
+                "Finalized" in str(rv[1]) and len(rv[2]) == 1:
+            inner, wrapped = rv[2][0], True
+        form = "empty" if is_empty_lit(inner) else "parsed"
+        not_tuple = False
+        infeasible = False
+        for _, pol, c in ps.conds:
+            if isinstance(c, tuple) and c and c[0] == "call" and \
+                    c[1] == "isinstance" and len(c[2]) == 2 and \
+                    c[2][0] == inner and "tuple" in str(c[2][1]):
+                if not pol:
+                    if is_empty_lit(inner):
+                        infeasible = True
+                    not_tuple = True
+        if infeasible:
+            continue
+        seen.add(form)
+        if not wrapped and not not_tuple:
+            out[form] = False
+    if seen != {"empty", "parsed"}:
+        raise AnalysisError("prefix '(': the empty and the non-empty form "
+                            f"were not both recognised ({sorted(seen)})")
+    return out
 
 
 def _prefix_with_terminal_shortcut(tag, pss, table):
@@ -1024,6 +1070,9 @@ class ModelParser:
             self.pos += 1
             if op == "paren":
                 if inner[0] == "Tuple":
+                    pf = getattr(self.t, "paren_final", None) or {}
+                    if not pf.get("empty" if not inner[1] else "parsed", True):
+                        return inner        # an open tuple: commas extend it
                     return ("FinalTuple", inner[1])
                 return inner
             if inner[0] == "Tuple":
